@@ -326,7 +326,7 @@ impl NodeMon for C14 {
 pub fn run_c14(ctx: &Ctx, rep: &mut Report) {
     let miri = ctx.variant == Variant::Miri;
     let corpus = corpus_positions();
-    let n = ctx.budget(1500, 40_000, 2, 400);
+    let n = ctx.budget(4000, 50_000, 2, 400);
     ctx.cases(rep, "play", n, |gid, rng, rep| {
         // promotions on several files, two e.p. capturers, pawns with both e.p. and ordinary moves
         let start = match rng.below(6) {
